@@ -72,6 +72,13 @@ def skeletons(tier):
         S[f"rebind_{dev}"] = HDR + MON + f"x = {d1}\n" + pro_use + f"while True:\n    x = {d2}\n    " + use
         S[f"rebind_same_{dev}"] = HDR + MON + f"x = {d1}\n" + pro_use + f"while True:\n    x = {d1}\n    " + use
         S[f"two_names_{dev}"] = HDR + MON + f"y = {d1}\n" + pro_use.replace("x.", "y.") + f"while True:\n    x = {d2}\n    " + use
+    # a prologue variable first assigned inside a top-level compound statement, then re-assigned in the main loop
+    for kind, block in (("if", 'v = analog_read("A0")\nif v > 5:\n    step = 1\nelse:\n    step = 2\n'),
+                        ("for", "for i in range(3):\n    step = i\n"),
+                        ("while", "n = 0\nwhile n < 2:\n    n += 1\n    step = n\n"),
+                        ("try", "try:\n    step = 4\nexcept:\n    step = 5\n")):
+        S[f"prologue_{kind}_var_reassigned_in_loop"] = HDR + MON + block + "while True:\n    step = step + 1\n    mon.write(step)\n"
+        S[f"prologue_{kind}_var_aug_in_loop"] = HDR + MON + block + "while True:\n    step += 2\n    mon.write(step)\n"
     S["helper_then_loop"] = HDR + MON + 'def tick(k):\n    mon.write(k)\n    return k + 1\nc = tick(0)\nwhile True:\n    c = tick(c)\n'
     return S
 
